@@ -261,8 +261,8 @@ def parse_specification(
     assert len(elements) > 0
     if isinstance(elements[0], TokenAllow):
         first = elements.pop(0)
-        if all(isinstance(el, TokenAnything) for el in elements):
-            return TokenAnything()
+        # "(f _ _)" still says "an application of f": as a sketch or as an
+        # argument pattern it constrains the head
         return TokenFunction(first, elements)  # type: ignore
     assert len(elements) == 1
     return elements[0]
